@@ -113,11 +113,15 @@ pub fn plan_for(property: &str) -> Option<(&'static str, Vec<PlanItem>)> {
                 PlanItem { family: "hostile", run: c10_hostile, quick: 6000, thorough: 100000, determinism_check: true },
                 PlanItem { family: "duplex_scan", run: c10_duplex_scan, quick: 6000, thorough: 60000, determinism_check: false },
                 PlanItem { family: "script_scan", run: c10_script_scan, quick: 12000, thorough: 120000, determinism_check: false },
+                PlanItem { family: "accept_service", run: c10_accept_service, quick: 6000, thorough: 60000, determinism_check: false },
             ],
         ),
         "C12" => (
             "C12",
-            vec![PlanItem { family: "multi", run: c12_multi, quick: 8000, thorough: 100000, determinism_check: true }],
+            vec![
+                PlanItem { family: "multi", run: c12_multi, quick: 8000, thorough: 100000, determinism_check: true },
+                PlanItem { family: "accept_service", run: c12_accept_service, quick: 6000, thorough: 60000, determinism_check: false },
+            ],
         ),
         "C13" => (
             "C13",
@@ -716,6 +720,60 @@ fn c13_accept(ctx: &CaseCtx) -> CaseReport {
     let end = run.end_time;
     finish(&mut rep, ctx, &view, run.events, end);
     rep
+}
+
+/// The `accept` family seen from another property: foreign hosts send bare SYNs (some with the very
+/// connection ids the legitimate clients use) while clients connect; what the C13 oracles observe
+/// about the legitimate connects - every connect nothing stands in the way of succeeds, is paired
+/// with exactly one accepted stream and reads back its own token, queued requests are served - is
+/// reported under `prop` with the rule `accept-service`.
+fn accept_service(ctx: &CaseCtx, prop: &'static str, relevant: fn(&crate::fam::accept::AcceptCfg) -> bool) -> CaseReport {
+    use crate::fam::accept as ac;
+    let mut rep = CaseReport::new(ctx.family, ctx.index, ctx.case_seed);
+    let (cfg, plan, pdesc) = ac::generate(ctx.case_seed);
+    rep.desc = format!("{} plan[{}]", cfg.describe(), pdesc);
+    if !relevant(&cfg) {
+        rep.counters.inc("accept_service_cases_skipped_as_irrelevant");
+        return rep;
+    }
+    let run = ac::run_accept(ctx.case_seed, &cfg, plan);
+    if let Some(p) = &run.panicked {
+        rep.counters.inc("cases_with_panic");
+        rep.inconclusive.push(format!("panic during the run: {p}"));
+    }
+    if run.deadline_hit {
+        rep.inconclusive.push("virtual deadline hit".into());
+    }
+    let view = WireView::build(&run.events);
+    let mut tmp = CaseReport::new(ctx.family, ctx.index, ctx.case_seed);
+    mon::c13::check(&mut tmp, &run.events, &cfg, run.result.as_ref());
+    for v in &tmp.violations {
+        let service = v.rule == "pairing" || v.rule == "abandoned" || (v.rule == "backlog" && v.signature.contains("never handed"));
+        if service {
+            rep.violate(prop, "accept-service", format!("{}: {}", v.rule, v.signature), v.detail.clone(), v.at);
+        }
+    }
+    let lc = prop.to_lowercase();
+    rep.counters.add(&format!("{lc}_accept_service_connects_judged"), tmp.counters.get("c13_connects_judged"));
+    rep.counters.add(&format!("{lc}_accept_service_successful_connects"), tmp.counters.get("c13_successful_connects"));
+    rep.counters.add(&format!("{lc}_accept_service_foreign_syns"), cfg.raw_syns.len() as u64);
+    if cfg.client_id_base.is_some() {
+        rep.counters.inc(&format!("{lc}_accept_service_cases_with_equal_ids_from_different_addresses"));
+    }
+    rep.counters.add("datagrams", view.pkts.len() as u64);
+    rep.nontrivial = tmp.counters.get("c13_connects_judged") >= 1;
+    let end = run.end_time;
+    finish(&mut rep, ctx, &view, run.events, end);
+    rep
+}
+
+fn c10_accept_service(ctx: &CaseCtx) -> CaseReport {
+    // hostile part: SYNs from hosts that never follow up
+    accept_service(ctx, "C10", |c| !c.raw_syns.is_empty() && !c.connects.is_empty())
+}
+
+fn c12_accept_service(ctx: &CaseCtx) -> CaseReport {
+    accept_service(ctx, "C12", |c| c.connects.len() >= 2)
 }
 
 fn c10_hostile(ctx: &CaseCtx) -> CaseReport {
